@@ -157,6 +157,11 @@ if ROUND == 9:
 if ROUND == 10:
     MISSED = {"C13S": "sparse data whose nonzeros are stored reversed / row-sorted / shuffled (stored order as a presentation of the samplers' and solvers' data)",
               "C15S": "values relabelled to 1 + v * 2^-30 for issymmetric (entries that differ, differ by a hair: the test is exact, not a closeness test)"}
+if ROUND == 11:
+    MISSED = {"C02U": "a Kruskal operand of mttkrp in the parameterisation 'every weight 1 + 2^-20, the weights proper in a factor' (weights a hair away from one are weights)",
+              "C05T": "hosvd with a rank request holding zeros ('choose this rank'), as a vector and as a row: the chosen ranks may not be written into the caller's array",
+              "C12U": "model value 0.0 (the lower bound of the non-negative models, where only the EPS guard keeps the expressions finite) and data value 0 for the beta loss",
+              "C18T": "scale factor 1e-9 in Presentation_Gen, and hosvd problems with the tight tolerance 0.05 in the quick tier (small eigenvalues decide the ranks)"}
 for d in sorted(SRC.glob("C??[CDEFGHIJKLMNOPQRSTUVWXYZ]")):
     rj = d / "result.json"
     if not rj.exists():
